@@ -48,7 +48,8 @@ func fixedCrashes() []crashCase {
 	doc := `{"auths":{"https://registry.example.com/":{"auth":"dXNlcjpwYXNz","email":"x@y"}},"HttpHeaders":{"User-Agent":"x"},"big":123456789012345678901234567890}`
 	return []crashCase{
 		{Kind: "K", K: -1, Init: &doc, Mode: 0o644, Op: opx{Op: "P", Addr: "registry.example.com", U: "u", P: "p:q", R: "rt"}},
-		{Kind: "K", K: -1, SubDir: true, Op: opx{Op: "P", Addr: "localhost:5000", U: "user", P: "secret"}},
+		{Kind: "K", K: -1, SubDir: true, Depth: 3, Op: opx{Op: "P", Addr: "localhost:5000", U: "user", P: "secret"}},
+		{Kind: "K", K: -1, Init: &doc, Mode: 0o664, Symlink: true, Op: opx{Op: "P", Addr: "registry.example.com", U: "u", P: "p"}},
 		{Kind: "K", K: -1, Init: &doc, Mode: 0o600, Op: opx{Op: "D", Addr: "https://registry.example.com/"}},
 	}
 }
@@ -94,6 +95,8 @@ func replayExtra(c map[string]string) {
 		}
 		fmt.Sscanf(c["mode"], "%d", &cc.Mode)
 		cc.SubDir = c["subdir"] == "true"
+		fmt.Sscanf(c["depth"], "%d", &cc.Depth)
+		cc.Symlink = c["symlink"] == "true"
 		if err := json.Unmarshal([]byte(c["cop"]), &cc.Op); err != nil {
 			fmt.Fprintln(os.Stderr, "bad replay op:", err)
 			os.Exit(2)
